@@ -25,6 +25,11 @@ pub struct VItem {
     pub probes: Vec<Probe>,
 }
 
+/// declaration wrapped in its own module; probes live outside and see only the public API
+pub fn wrap_decl(source: &str) -> String {
+    format!("#![allow(dead_code, unused_imports, unused_variables, deprecated, non_camel_case_types)]\nuse arbitrary_int::*;\npub mod decl {{\n#![allow(dead_code, unused_imports, non_camel_case_types, non_upper_case_globals)]\nuse arbitrary_int::*;\n{}\n}}\nuse decl::*;\n", source)
+}
+
 pub const V_PRELUDE: &str = "#![allow(dead_code, unused_imports, unused_variables, deprecated, non_camel_case_types)]\nuse arbitrary_int::*;\n";
 
 fn check_args(macro_profile: &str) -> Vec<&'static str> {
@@ -99,7 +104,7 @@ pub fn check_probes(rc: &RunCtx, tag: &str, items: &[VItem], macro_profile: &str
         let mut files = Vec::new();
         let mut line_map: BTreeMap<(usize, u32), usize> = BTreeMap::new();
         for it in items {
-            let mut src = format!("{}{}", V_PRELUDE, it.source);
+            let mut src = wrap_decl(&it.source);
             if !src.ends_with('\n') {
                 src.push('\n');
             }
@@ -157,7 +162,7 @@ pub fn check_probes(rc: &RunCtx, tag: &str, items: &[VItem], macro_profile: &str
 /// Isolated re-check of a single declaration (+ optional single probe): returns error messages.
 pub fn check_isolated(rc: &RunCtx, source: &str, probe: Option<&str>, macro_profile: &str) -> Vec<String> {
     let dir: PathBuf = rc.work.join(format!("iso-{}", macro_profile));
-    let mut src = format!("{}{}", V_PRELUDE, source);
+    let mut src = if probe.is_some() { wrap_decl(source) } else { format!("{}{}", V_PRELUDE, source) };
     if let Some(p) = probe {
         if !src.ends_with('\n') {
             src.push('\n');
@@ -211,8 +216,7 @@ pub fn warm(rc: &RunCtx) {
     }
 }
 
-pub fn replay(rc: &RunCtx, kind: &str, doc: &Value, path: &str) -> ! {
-    let prop = rc.prop.clone();
+pub fn replay_doc(rc: &RunCtx, kind: &str, doc: &Value) -> Result<(), String> {
     match kind {
         "verdict" => {
             let source = doc["source"].as_str().unwrap_or_else(|| inconclusive("replay without source"));
@@ -222,14 +226,17 @@ pub fn replay(rc: &RunCtx, kind: &str, doc: &Value, path: &str) -> ! {
             let msgs = check_isolated(rc, source, probe, mp);
             let accepted = msgs.is_empty();
             if accepted != expect_accept {
-                println!("# expected {}, observed {} (macro profile {}): {:?}", if expect_accept { "compiles" } else { "compile error" }, if accepted { "compiles" } else { "compile error" }, mp, msgs.first());
-                println!("VIOLATION property={} replay={}", prop, path);
-                std::process::exit(1);
+                return Err(format!(
+                    "expected {}, observed {} (macro profile {}): {:?}",
+                    if expect_accept { "compiles" } else { "compile error" },
+                    if accepted { "compiles" } else { "compile error" },
+                    mp,
+                    msgs.first()
+                ));
             }
-            println!("REPLAY-PASS property={} file={} (the recorded case no longer fails)", prop, path);
-            std::process::exit(0);
+            Ok(())
         }
-        "regime" | "expansion" => crate::c18::replay(rc, doc, path),
+        "regime" | "expansion" => crate::c18::replay_doc(rc, doc),
         other => inconclusive(&format!("unknown replay kind {}", other)),
     }
 }
